@@ -84,5 +84,18 @@ def native_text(r) -> str:
     return r if isinstance(r, str) else "native:" + safe_repr(r)
 
 
+def unescaped(s: str) -> str:
+    """HTML-unescape until nothing changes: two texts that differ ONLY in how often / whether they were escaped
+    have the same image."""
+    import html
+
+    for _ in range(6):
+        t_ = html.unescape(s)
+        if t_ == s:
+            break
+        s = t_
+    return s
+
+
 def exc_key(e: BaseException) -> tuple:
     return (type(e).__name__, scrub(str(e)))
